@@ -134,7 +134,7 @@ public:
    */
   void clearVariable(unsigned id)
   {
-    _storage_pool[id].value = Value();
+    _storage_pool[id].value = std::move(Value().to_lvalue(true));
   }
 
   /**
@@ -372,13 +372,16 @@ private:
 
     ~MemorySlot() { delete symbol; }
 
+    /* the value of a variable is never a temporary, even before the first
+     * assignment: it must be flagged, or the first expression reading it would
+     * use it as scratch space */
     explicit MemorySlot(const Symbol& s)
     : value(s)
-    , symbol(new Symbol(s)) { }
+    , symbol(new Symbol(s)) { value.to_lvalue(true); }
 
     explicit MemorySlot(Symbol&& s)
     : value(s)
-    , symbol(new Symbol(std::move(s))) { }
+    , symbol(new Symbol(std::move(s))) { value.to_lvalue(true); }
 
     explicit MemorySlot(const MemorySlot& m)
     : value(std::move(m.value.clone().to_lvalue(true)))
